@@ -69,8 +69,19 @@ func (d *driver) pick() (ev event, ok bool) {
 		}
 		stateChanging := func(k string) bool { return k == "SELECT" || k == "UNSELECT" || k == "LOGOUT" || k == "LOGIN" }
 		switch k {
-		case "SELECT", "FETCH", "SEARCH", "EXPUNGE", "LIST", "LOGIN", "UNSELECT", "LOGOUT":
+		case "SELECT", "LOGIN", "UNSELECT", "LOGOUT":
 			if d.pendingOf(k) != nil {
+				return ev, false
+			}
+		case "FETCH", "SEARCH", "EXPUNGE", "LIST":
+			// a second one may be in flight: the scripted server completes them in the order sent
+			n := 0
+			for _, p := range d.pending {
+				if p.kind == k {
+					n++
+				}
+			}
+			if n > 1 {
 				return ev, false
 			}
 		case "STATUS":
@@ -188,6 +199,10 @@ func (d *driver) pick() (ev event, ok bool) {
 			return ev, false
 		}
 		p := d.pending[r.Intn(len(d.pending))]
+		switch p.kind {
+		case "FETCH", "SEARCH", "EXPUNGE", "LIST":
+			p = d.pendingOf(p.kind) // same-kind commands are completed in the order sent
+		}
 		st := []string{"OK", "OK", "OK", "NO", "BAD"}[r.Intn(5)]
 		if st == "OK" {
 			okAllowed := false
